@@ -41,11 +41,17 @@ def run(chk):
     for i, c in enumerate(s5.sample_cases(cxc, 3 if quick else 30, chk.seed + 4, max_cost=12 if quick else 100)):
         items.append({"case": c, "seed": chk.seed * 100003 + 800 + i, "scalar": "complex128" if i % 2 == 0 else "complex64", "ninputs": 1,
                       "options": {"language": "numba"}, "label": s5.case_label(c) + "|numba|complex"})
+    # constants of several ranks in mixed order (scalar before vector / tensor), and a mixed element (no basix hash)
+    for k, (cl, var) in enumerate([("triangle", 2), ("interval", 6)] if quick else [("triangle", 2), ("interval", 6), ("tetrahedron", 2), ("quadrilateral", 3)]):
+        items.append({"builder": "harness.corpus.realise_c05", "c05": {"cell": cl, "variant": var}, "seed": chk.seed * 7 + 300 + k, "scalar": "float64",
+                      "ninputs": 1, "geom": "affine", "options": {"language": "numba"}, "label": f"c05/{cl}/v{var}|numba"})
+    items.append({"builder": "harness.corpus.realise_thdiv", "th": {"cell": "triangle", "rule": 0, "coef": True}, "seed": chk.seed + 310, "scalar": "float64",
+                  "ninputs": 1, "geom": "affine", "options": {"language": "numba"}, "label": "thdiv/triangle|numba"})
     recs = s5.run_items(chk, items, nworkers=4 if quick else 6, module_size=1)
     for r in recs:
         it = items[r["item"]]
         if r["status"] == "skipped" and r.get("numba_error"):
-            c = it["case"]
+            c = it.get("case") or {"term": it.get("label", "?").split("|")[0]}
             chk.violation(f"numba:{r['numba_error']}:{c['term']}",
                           f"{it['label']}: the numba backend does not produce a runnable module: {r['why'][:300]}", {"item": it})
             r["why"] = "out of model: reported as numba backend failure"
